@@ -5,7 +5,9 @@ gen    : TLC explores spec/MC_Validation.tla (abstract rules A + implementation-
          (exception iff a validator fails, exactly the failing fields / rules in order, cap, passing fields loaded,
          built-in semantics, M refines A / the named deviation) are invariants checked in every state.
 replay : harness/val_harness.cpp executes every scenario on the real code on MsgPack, JSON, XML and CSV archives
-         (document produced by saving a writer object with the same archive, loaded into the validated class).
+         (document produced by saving a writer object with the same archive, loaded into the validated class), from
+         memory AND through the std::istream overload of LoadObject (stringstream, 3-bytes-per-read stream buffer):
+         the prescribed observation does not depend on the medium.
 judge  : plain equality with the prescribed observation.  Python only normalises paths as the property allows
          ("array positions aside"): a component made of digits (JSON/MsgPack/CSV position) or the XML item element
          "object" becomes '*', and entries whose normalised paths coincide are merged in map order.
@@ -53,16 +55,19 @@ def harness():
 
 
 ARCH_ORDER = ["json", "xml", "msgpack", "csv"]
+CHUNK = 20000
+MEDIA = ["mem", "sstream", "short3"]        # in-memory overload and std::istream overload of LoadObject (vh::MakeStream kinds)
 
 
-def replay_scenarios(scens, tag, withdoc=False):
-    """Executes the scenarios on the real archives; returns list of (scenario, arch, observation)."""
+def replay_scenarios(scens, tag, withdoc=False, media=None):
+    """Executes the scenarios on the real archives and media; returns list of (scenario, arch, observation)."""
+    media = media or MEDIA
     rows = []
     runs = []
     for i, s in enumerate(scens):
         archs = [a for a in ARCH_ORDER if a in s["archs"]]
-        rows.append({"id": "%s%d" % (tag, i), "place": s["place"], "nel": s["nel"], "cap": s["cap"], "fields": s["fields"], "archs": archs})
-        runs += [(i, a) for a in archs]
+        rows.append({"id": "%s%d" % (tag, i), "place": s["place"], "nel": s["nel"], "cap": s["cap"], "fields": s["fields"], "archs": archs, "media": media})
+        runs += [(i, a, m) for a in archs for m in media]
     sp = os.path.join(vlib.scratch(), "val_%s.ndjson" % tag)
     vlib.write_ndjson(sp, rows)
     obs = vlib.run_resumable([harness(), "run", sp] + (["withdoc"] if withdoc else []), timeout=2400)
@@ -71,12 +76,15 @@ def replay_scenarios(scens, tag, withdoc=False):
         raise vlib.MachineryError("replay %s: %d observations for %d runs" % (tag, len(obs), len(runs)))
     out = []
     for o in obs:
-        i, a = runs[o["run"]]
+        i, a, m = runs[o["run"]]
         if o.get("e") == "Crash" and o.get("status") == 3 << 8:
             raise vlib.MachineryError("val_harness rejected scenario %s on %s (see its stderr)" % (json.dumps(rows[i]), a))
         if "arch" in o and o["arch"] != a:
             raise vlib.MachineryError("replay %s: run %d is %s, expected %s" % (tag, o["run"], o["arch"], a))
+        if "medium" in o and o["medium"] != m:
+            raise vlib.MachineryError("replay %s: run %d is on %s, expected %s" % (tag, o["run"], o["medium"], m))
         o["arch"] = a
+        o["medium"] = m
         out.append((scens[i], a, o))
     return out
 
@@ -129,17 +137,17 @@ def judge(chk, triples, full_cases=200):
             if matches(d["exp"], arch, o):
                 dev = d["dev"]
         want = exp["errsxml"] if arch == "xml" else exp["errs"]
-        desc = "%s archive, %s: expected %s %s, observed %s" % (
-            arch, short(s), exp["exc"][0], json.dumps(want), o.get("e") or ("%s %s" % (json.dumps(o["exc"]), json.dumps(o["errs"]))))
+        desc = "%s archive (%s), %s: expected %s %s, observed %s" % (
+            arch, o["medium"], short(s), exp["exc"][0], json.dumps(want), o.get("e") or ("%s %s" % (json.dumps(o["exc"]), json.dumps(o["errs"]))))
         if "e" not in o and o["exc"] == exp["exc"] and norm_errs(arch, o["errs"]) == {p: m for p, m in want}:
             desc += "; values expected %s observed %s" % (json.dumps(exp["vals"]), json.dumps(o["vals"]))
         if dev:
             seen = _dev_seen.setdefault((id(chk), dev), [0])
             seen[0] += 1
             if seen[0] > full_cases:
-                chk.fail(desc, {"scenario": short(s), "arch": arch}, dev=dev)   # occurrences of a classified deviation: keep the count, not the bulk
+                chk.fail(desc, {"scenario": short(s), "arch": arch, "medium": o["medium"]}, dev=dev)   # occurrences of a classified deviation: keep the count, not the bulk
                 continue
-        chk.fail(desc, {"scenario": {k: s[k] for k in ("place", "nel", "cap", "fields", "archs")}, "arch": arch,
+        chk.fail(desc, {"scenario": {k: s[k] for k in ("place", "nel", "cap", "fields", "archs")}, "arch": arch, "medium": o["medium"],
                         "expected": exp, "expdev": s.get("expdev", []), "observed": o}, dev=dev)
 
 
@@ -225,6 +233,7 @@ def run_check(tier):
         "abstract rules spec/Validation.tla (A); TLC checks ExceptionIffFailure / ExactlyFailingFields / ExactlyFailingRules / "
         "PassingFieldsLoaded / BuiltinSemantics / MFixedRefinesA / MUnchangedIsADev in every state (invariant Check)",
         "paths compared with array positions replaced by '*' (digits; XML item element 'object'); equal normalised paths merged",
+        "every scenario is loaded from memory and through std::istream (stringstream; stream buffer delivering 3 bytes per read) on every applicable archive",
         "Email / PhoneNumber bound only on the documented examples (README, validators_tests.cpp)",
         "values of failing fields, of fields after an early end (cap reached) and of containers left partly loaded by an early end are not prescribed",
         "XML, cap > 0, two array elements, cap not reached inside the first element: not prescribed (XML paths carry no position)",
@@ -235,16 +244,19 @@ def run_check(tier):
     for label, constants in plan(tier):
         sc = gen(chk, label, constants)
         stats.add(sc)
-        triples = replay_scenarios(sc, label.replace("-", "_"))
-        judge(chk, triples)
-        nruns += len(triples)
-        chk.add_cases(len(triples), distinct_keys=(digest(s) for s in sc if any(f["vs"] for f in s["fields"])), validated=len(triples))
+        for off in range(0, len(sc), CHUNK):        # bounded number of observation records in memory
+            triples = replay_scenarios(sc[off:off + CHUNK], "%s_%d" % (label.replace("-", "_"), off))
+            judge(chk, triples)
+            nruns += len(triples)
+            chk.add_cases(len(triples), validated=len(triples))
+            del triples
+        chk.add_cases(0, distinct_keys=(digest(s) for s in sc if any(f["vs"] for f in s["fields"])))
         if sc:
             mid = sc[len(sc) // 2]
             chk.sample({"scenario": short(mid), "archs": mid["archs"], "expected": mid["exp"]}, limit=4)
-        del sc, triples
+        del sc
     stats.selftest()
-    return chk.finish(extra_cov={"scenarios": stats.n, "runs_per_archive": stats.archs, "scenarios_under_deviation_guard": stats.dev,
+    return chk.finish(extra_cov={"scenarios": stats.n, "runs_per_archive": {a: n * len(MEDIA) for a, n in stats.archs.items()}, "media": MEDIA, "scenarios_under_deviation_guard": stats.dev,
                                  "scenarios_with_merged_array_paths": stats.merged, "scenarios_with_multi_message_field": stats.multi},
                       exhaustive=True)
 
@@ -261,11 +273,11 @@ def replay(path):
     s = dict(case["scenario"], exp=case["expected"], expdev=case.get("expdev", []))
     s["archs"] = [case["arch"]]
     rc = 0
-    for sc, arch, o in replay_scenarios([s], "replay", withdoc=True):
+    for sc, arch, o in replay_scenarios([s], "replay", withdoc=True, media=[case.get("medium", "mem")]):
         ok = matches(sc["exp"], arch, o)
         dev = [d["dev"] for d in sc["expdev"] if matches(d["exp"], arch, o)]
         print("scenario : %s" % short(sc))
-        print("archive  : %s" % arch)
+        print("archive  : %s (%s)" % (arch, o["medium"]))
         print("document : %s" % o.get("doc"))
         print("expected : %s" % json.dumps(sc["exp"]))
         print("observed : %s" % json.dumps({k: o.get(k) for k in ("e", "exc", "errs", "vals") if k in o}))
